@@ -824,8 +824,12 @@ def probe_facts(w, inv):
         d = run([a for a in argv if a != '--apply'], dry=True)
         f['pre_ok'] = d is not None
         if d is not None: f['has_creates'] = d['data']['summary']['create'] > 0
-    elif inv.cid in ('doctor', 'overlay rebase'):
-        d = run(glob + ['plan'])
+    elif inv.cid == 'doctor':
+        d = run(glob + ['doctor'])
+        f['pre_ok'] = d is not None
+    elif inv.cid == 'overlay rebase':
+        # Engine::load is all that precedes the rebase itself (profile / target are not consulted)
+        d = run(glob + ['overlay', 'path', 'x'])
         f['pre_ok'] = d is not None
     f['lockfile'] = os.path.exists(os.path.join(w.sb.repo, 'agentpack.lock.json'))
     f['cfg_exists'] = os.path.exists(os.path.join(w.sb.repo, 'agentpack.yaml'))
